@@ -108,6 +108,7 @@ type Profile struct {
 	Boundary   bool // mix in 64-bit boundary integers and odd strings
 	SetMaxLen  int
 	AllowEmpty bool // allow empty sets (cannot be serialized, fine at datalog level)
+	KeepDups   bool // sometimes leave a set constant as drawn (unsorted, repeated elements) instead of canonical
 }
 
 var SmallProfile = Profile{
@@ -195,6 +196,10 @@ func (p Profile) DrawConst(t *rapid.T, ty Type, label string) m.Term {
 	}
 	if len(es) == 0 {
 		return m.Term{K: m.KSet}
+	}
+	if p.KeepDups && rapid.Bool().Draw(t, label+".asdrawn") {
+		// as the caller wrote it: order kept, an element may occur twice
+		return m.Term{K: m.KSet, Set: es}
 	}
 	return m.Term{K: m.KSet, Set: m.CanonSet(es)}
 }
